@@ -409,16 +409,28 @@ func processLogFile(absoluteFileName string, output chan *LogEntryInfo) (err err
 	if err != nil {
 		return err
 	}
+	// lines are read without a limit on their length: bufio.Scanner gives up on a line longer than its buffer (64 KiB),
+	// which used to end the processing of the file silently, leaving the rest of it unverified
 	lineNumber := 0
-	scanner := bufio.NewScanner(f)
-	for scanner.Scan() {
-		logEntryInfo := &LogEntryInfo{
-			RawLogEntry: scanner.Text(),
-			FileInfo:    fileInfo,
-			LineNumber:  lineNumber,
+	reader := bufio.NewReader(f)
+	for {
+		line, readErr := reader.ReadString('\n')
+		if len(line) > 0 {
+			// same line terminators as bufio.ScanLines: "\n" with an optional "\r" before it
+			line = strings.TrimSuffix(line, "\n")
+			line = strings.TrimSuffix(line, "\r")
+			output <- &LogEntryInfo{
+				RawLogEntry: line,
+				FileInfo:    fileInfo,
+				LineNumber:  lineNumber,
+			}
+			lineNumber++
 		}
-		output <- logEntryInfo
-		lineNumber++
+		if readErr == io.EOF {
+			return nil
+		}
+		if readErr != nil {
+			return readErr
+		}
 	}
-	return nil
 }
